@@ -74,6 +74,11 @@ DIRECTED = [
     # template findvwLTE returns a sign change of its discontinuous residual
     dict(case=dict(kind="template", alN=0.22323, psiN=0.656, cb2=0.2023, cs2=0.3229,
                    Tn=0.1205), vws=[0.5], lte=True),
+    # hybrids between the two sound speeds (rarefaction wave present iff vw > cb), both orderings
+    dict(case=dict(kind="template", alN=0.05, psiN=0.9, cb2=0.22, cs2=0.32, Tn=1.0),
+         vws=[0.56], kappa_vws=[0.56, 0.52]),
+    dict(case=dict(kind="template", alN=0.1, psiN=0.8, cb2=0.31, cs2=0.24, Tn=3.0, wn=0.2),
+         vws=[0.52], kappa_vws=[0.52, 0.54]),
     # shock-limited minimal velocities (alN > 1/3): non-trivial vMin in every quick run
     dict(case=dict(kind="template", alN=0.42, psiN=0.6, cb2=0.25, cs2=0.3, Tn=1.0, wn=3.7),
          vws=[0.3, 0.5]),
@@ -349,10 +354,19 @@ def compare(ctx, case, stats, rng, n_vw, with_lte=True, with_kappa=True, vws=Non
         if gstate == "ok" and not spy.fallback and not (
                 hg.vMin == hg.vBracketLow and vw < 1.5 * hg.vBracketLow):
             ge = base.fluxes(th, *mg)
-            gtol = base.flux_tolerance(hg, *mg)
-            if not (rel(ge[0], ge[1]) <= gtol and rel(ge[2], ge[3]) <= gtol):
-                fail("general solver alone: fluxes %r not conserved (tol %.3g) at vw=%.6g" % (
-                    ge, gtol, vw), "general-flux", vw=vw, quantity="matching")
+            bnd = None
+            if ginfo is not None:
+                # bound derived from the solver's own final residual (C02_residual_to_junction)
+                c_ = base.scale_of(ginfo["Tpm0"], mg[2], mg[3])
+                f_ = [float(x) for x in ginfo["sol"].fun]
+                bnd = base.derived_flux_bound(th, mg[0], mg[1], mg[2], mg[3], f_[0] / c_,
+                                              f_[1] / c_)
+            if bnd is not None and not (
+                    abs(ge[0] - ge[1]) <= bnd[0] * (1 + 1e-6) + bnd[1] and
+                    abs(ge[2] - ge[3]) <= bnd[0] * (1 + 1e-6) + bnd[1]):
+                fail("general solver alone: fluxes %r differ by more than the bound %.3g "
+                     "implied by its own residual at vw=%.6g" % (ge, bnd[0], vw),
+                     "general-flux", vw=vw, quantity="matching")
         tol = matching_tolerance(ht, Tn, RTOL, ATOL, mg, mt, branch)
         worst = max(rel(a, b) for a, b in zip(mg, mt))
         if first is None and not (hg.vMin == hg.vBracketLow and vw < 1.5 * hg.vBracketLow):
